@@ -311,7 +311,7 @@ def run(ck):
     for cs in CUBICS + ["HCP"]:
         std = [f for d in STANDARD[cs] for f in d]
         pool = fam[cs]
-        k = (120 if cs in ("Cubic", "HCP") else 40) if ck.quick else len(pool)
+        k = (120 if cs in ("Cubic", "HCP") else 40) if ck.quick else 2000
         sample = pool if k >= len(pool) else rng.sample(pool, k)
         for b, n in std + sample:
             g_req.append((cs, tuple(b), tuple(n)))
@@ -500,8 +500,9 @@ def run(ck):
     tot_fam = len([1 for r in ex_req if r[3]])
     return ck.finish({
         "evaluations": len(ex_lines) + len(t_lines) + len(g_lines) + len(s_lines) + len(r_lines),
-        "distinct_nontrivial": tot_fam + n_geom + n_schmid + n_pairs,
-        "rule": "families: every (b,n) with indices in [-3,3], b.n = 0 (Cubic, FCC, BCC: %d each; HCP with h+k+i=0: %d) — all non-trivial (each is expanded and compared as a set); geometry: systems whose normal/direction/tensor were checked; Schmid: (description, direction, family, system) values checked; ranks: ordered pairs of systems whose rank was compared" % (len(fam["Cubic"]), len(fam["HCP"])),
+        "distinct_nontrivial": len({l for l, r in zip(ex_lines, ex_req) if r[3]}) + len({l for l in t_lines if any(x != "0" for x in l.split()[1:4]) and any(x != "0" for x in l.split()[4:7])}) +
+                               len(set(g_lines)) + len(set(s_lines)) + len(set(r_lines)),
+        "rule": "requests sent to the implementation, counted once each: family expansions for every (b,n) with indices in [-3,3] and b.n = 0 (Cubic and HCP with h+k+i=0 exhaustively: %d and %d; FCC/BCC sampled in the quick tier) — non-trivial: well-defined families (each is expanded and compared as a set with the orbit); tensor requests with non-zero vectors; geometry, Schmid and rank requests (distinct lines). The finer counts are geometry_systems_checked, schmid_values_checked, rank_pairs_checked" % (len(fam["Cubic"]), len(fam["HCP"])),
         "exhaustive": True, "exhaustive_over": "all slip-system families with Miller / Miller-Bravais indices in [-3,3]: Cubic and HCP in both tiers, FCC and BCC (same code as Cubic) exhaustive in the thorough tier and sampled in the quick tier",
         "families": {cs: len(fam[cs]) for cs in fam}, "families_expanded": len([1 for r in ex_req if r[3]]), "family_size_histogram": {str(k): v for k, v in sorted(sizes.items())},
         "geometry_systems_checked": n_geom, "schmid_values_checked": n_schmid, "rank_pairs_checked": n_pairs,
